@@ -90,6 +90,8 @@ def run(ck):
     ck.gen_from_source()
     ck.coq_build(["props/C19.vo", "extract/C19_extract.vo"])
     ck.print_assumptions(["DSP.C19"], ["DSP.C19." + t for t in THEOREMS])
+    ck.source_tie("alias")
+    ck.source_tie("eval")
     ck.hygiene()
     ck.ocaml_build()
     ck.harness_build(["c19", "listcmds"])
